@@ -205,7 +205,9 @@ pub fn gen_script(rng: &mut Rng, ctx: &mut Ctx, depth: u32, is_reply: bool) -> S
             let attrs: Vec<String> = (0..na).map(|_| format!("({} {})", attr_key(rng, ctx), rng.pick(VALS))).collect();
             acts.push(format!("(ev {}{}{})", ev_ty(rng, ctx), if attrs.is_empty() { "" } else { " " }, attrs.join(" ")));
         } else if r < 57 {
-            acts.push(format!("(data {})", rng.pick(&["-", "01", "aabb", "0a02cc"])));
+            // mostly short; sometimes at the boundaries of the one-byte protobuf length (127 / 128 / 129 bytes) or longer
+            let d: &str = if rng.chance(1, 10) { rng.pick(&["61*127", "61*128", "61*129", "00*128", "0a*300"]) } else { rng.pick(&["-", "01", "aabb", "0a02cc"]) };
+            acts.push(format!("(data {})", d));
         } else if r < 68 {
             let q = match if ctx.staking { rng.below(11) } else { rng.below(8) } {
                 8 => format!("(qdeleg {} {})", some_addr(rng, ctx), rng.pick(&["v1", "v2", "v9"])),
